@@ -1,0 +1,10 @@
+//! Read-only accessors used by the external verification harness.
+//! Compiled only with `RUSTFLAGS="--cfg walrus_verif"`; never part of a normal build.
+
+pub fn sanitize_namespace(key: &str) -> String {
+    super::config::sanitize_namespace(key)
+}
+
+pub fn checksum64(data: &[u8]) -> u64 {
+    super::config::checksum64(data)
+}
